@@ -31,7 +31,7 @@ SUPP_FIELDS = ['IS', 'IDI', 'OO', 'OQ']
 
 def _imports():
     d, root, pre = SIM2_LOC
-    return 'From SV Require Import Sim.Model Sim.Obs.\nFrom %s Require Import %sModel2 %sObs2 %sWfb2 %sMain2b.\n' % (root, pre, pre, pre, pre)
+    return 'From SV Require Import Sim.Model Sim.Obs.\nFrom %s Require Import %sModel2 %sObs2 %sWfb2 %sMain2b %sMain2c.\n' % (root, pre, pre, pre, pre, pre)
 
 
 def _qflags():
@@ -46,7 +46,7 @@ def ensure_compiled():
     """compile State2.v / Model2.v / Obs2.v in the work directory if the .vo files are missing or stale (work location only)"""
     d, root, pre = SIM2_LOC
     if root == 'SV':
-        ok, log = coq_make(['Sim2/Obs2.vo', 'Sim2/Wfb2.vo', 'Sim2/Main2b.vo'])
+        ok, log = coq_make(['Sim2/Obs2.vo', 'Sim2/Wfb2.vo', 'Sim2/Main2b.vo', 'Sim2/Main2c.vo'])
         if not ok: raise RuntimeError('make Sim2/Obs2.vo failed: ' + log[-1500:])
         return
     prev = None
@@ -229,7 +229,7 @@ def coq_case2(spec, st=None, err=None, clip=None, what='run'):
                         ('(Some d%s)' % s['dtype']) if s['dtype'] else 'None', cq(s['init_orders']), cq(s['init_ships'])))
     net = '{| nodes2 := %s; cfg2 := tbl dflt_ncfg2 %s |}' % (clist([cN(i) for i in order]), clist(cfgs))
     if what == 'good':      # the decidable hypotheses of the Stage-2 theorems (Sim2/Wfb2.v)
-        return 'let NWx := %s in [good2b NWx; cons2b NWx; goodB2b NWx; onceB2b NWx]' % net
+        return 'let NWx := %s in [good2b NWx; cons2b NWx; goodB2b NWx; onceB2b NWx; supC2b NWx; priceC2b NWx; ratesC2b NWx]' % net
     inputs = []
     for t in range(T):
         dis = clist(['(%s, %s)' % (cN(i), cbool(spec['nodes'][i]['dis'][t])) for i in order if spec['nodes'][i]['dtype']])
@@ -302,7 +302,7 @@ run_model2.cpu = 0.0; run_model2.times = []
 
 
 def eval_good2(specs_structs, name='good2'):
-    """[(spec, struct)] -> [(good2b, cons2b, goodB2b, onceB2b)]: the boolean well-formedness checks under which the Stage-2 theorems hold"""
+    """[(spec, struct)] -> [(good2b, cons2b, goodB2b, onceB2b, supC2b, priceC2b, ratesC2b)]: the boolean well-formedness checks under which the Stage-2 theorems hold"""
     ensure_compiled()
     exprs = [coq_case2(sp, st, what='good') for sp, st in specs_structs]
     vals, _ = coq_eval2_sharded(name, '', exprs, shard=40, jobs=14, timeout=600)
